@@ -581,6 +581,8 @@ class Integer(Type):
                                       'INTEGER',
                                       Tag.INTEGER)
         self.has_extension_marker = False
+        self.minimum = None
+        self.maximum = None
         self.length = None
         self.fmt = None
         self.signed = True
@@ -591,8 +593,22 @@ class Integer(Type):
         if minimum != 'MIN':
             self.signed = (minimum < 0)
 
-        if minimum == 'MIN' or maximum == 'MAX' or has_extension_marker:
+        if has_extension_marker:
             return
+
+        # MIN and MAX denote the bounds of the parent type, if it has
+        # any.
+        if minimum != 'MIN':
+            self.minimum = minimum
+
+        if maximum != 'MAX':
+            self.maximum = maximum
+
+        if self.minimum is None or self.maximum is None:
+            return
+
+        minimum = self.minimum
+        maximum = self.maximum
 
         if minimum >= 0:
             if maximum < 256:
